@@ -111,16 +111,15 @@ example :
     request.** Every request the command socket can carry (`cv` arbitrary:
     mutating, rejected by the main state, query, status, metrics, list,
     HardStop, SoftStop, LoadState of any file, `request_type: None`,
-    LaunchWorker, ReturnListenSockets, ReloadConfiguration of a loadable file,
-    SetMetricDetail, …; every `cv` but the one that makes the handler panic,
-    `crashesMain`), accepted by a running main process, has
+    LaunchWorker, ReturnListenSockets, ReloadConfiguration of any path,
+    SetMetricDetail, …), accepted by a running main process, has
     exactly one final answer after the first run-loop pass later than the
     worker timeout — whatever the workers do — unless one of the two open
     findings applies at that pass: the main process was shut down by a stop
     verb (`ShutDown`, F37), or the request is gathered without a deadline and a
     worker has not answered (`Hangs`, F36). -/
 theorem C09_one_final_answer_all_verbs (ret : Bool) (T n : Nat)
-    (pre mid post : List Op) (c : Nat) (cv : ClientVerb) (hcrash : cv.crashesMain = false)
+    (pre mid post : List Op) (c : Nat) (cv : ClientVerb)
     (halive : ¬ ShutDown (run (Hub.init true true ret T n) pre))
     (halive' : ¬ ShutDown (run (Hub.init true true ret T n) (pre ++ [.request c (cv.classify true)] ++ mid)))
     (hnohang : ¬ Hangs (run (Hub.init true true ret T n) pre).nextReq
@@ -130,7 +129,7 @@ theorem C09_one_final_answer_all_verbs (ret : Bool) (T n : Nat)
     finalsOf (run (Hub.init true true ret T n) pre).nextReq
       (run (Hub.init true true ret T n)
         (pre ++ [.request c (cv.classify true)] ++ mid ++ [.tick] ++ post)).log = 1 :=
-  one_final_core true true ret T n (Or.inr rfl) pre mid post c _ (classify_answers cv hcrash) halive halive'
+  one_final_core true true ret T n (Or.inr rfl) pre mid post c _ (classify_answers cv) halive halive'
     (releasable_all_verbs true true ret T n pre mid c _ halive hlate hnohang)
 
 /-- a LoadState of two requests with one worker that answers both (one Ok, one
@@ -151,7 +150,7 @@ example :
     or answered at once** — no side condition but "the main process runs". -/
 theorem C09_one_final_answer (ret : Bool) (T n : Nat)
     (pre mid post : List Op) (c : Nat) (cv : ClientVerb)
-    (h1 : cv ≠ .softStop) (h2 : ∀ k, cv ≠ .load k) (h3 : ∀ k, cv ≠ .reload k) (h4 : cv.crashesMain = false)
+    (h1 : cv ≠ .softStop) (h2 : ∀ k, cv ≠ .load k) (h3 : ∀ k, cv ≠ .reload k)
     (halive : (run (Hub.init true true ret T n) pre).run ≠ .exited)
     (halive' : (run (Hub.init true true ret T n) (pre ++ [.request c (cv.classify true)] ++ mid)).run ≠ .exited)
     (hlate : (run (Hub.init true true ret T n) pre).now + T
@@ -160,7 +159,7 @@ theorem C09_one_final_answer (ret : Bool) (T n : Nat)
       (run (Hub.init true true ret T n)
         (pre ++ [.request c (cv.classify true)] ++ mid ++ [.tick] ++ post)).log = 1 :=
   one_final_deadline_core true true ret T n (Or.inr rfl) pre mid post c _
-    (classify_answered cv h1 h2 h3 h4) halive halive' hlate
+    (classify_answered cv h1 h2 h3) halive halive' hlate
 
 example :
     finalsOf 0 (run (Hub.init true true true 10 2)
@@ -217,15 +216,20 @@ example : (ClientVerb.hardStop.classifyFor false true) = .workerBad ∧
 theorem C09_one_final_answer_counterexample_pipelined (v1 v2 : Verb) :
     sessionPick [v1, v2] = some v2 := rfl
 
-/-- open (new): ReloadConfiguration of a path that cannot be loaded runs
-    `unwrap_or_else(|_| panic!(…))` in the handler — the main process dies, the
-    request (and every other client's pending request) is never answered. As a
-    verb it is not answered (`reload-bad-path-crashes-main`; the driver ends the
-    main process there while `Consts.hubReloadBadPathPanics` holds). -/
-theorem C09_one_final_answer_counterexample_crash :
-    ClientVerb.reloadBad.crashesMain = true ∧ (ClientVerb.reloadBad.classify true).answers = false ∧
-    finalsOf 0 (run (Hub.init true true true 10 1)
-      [.request 0 (ClientVerb.reloadBad.classify true), .advance 1000, .tick]).log = 0 := by
+/-- F1492 (repaired in /repo, 4a1f13d): ReloadConfiguration of a path that cannot be
+    loaded used to run `unwrap_or_else(|_| panic!(…))` in the handler and kill
+    the main process. Regression example of the repaired behaviour: the client
+    gets exactly one answer, a Failure; the main process keeps running; another
+    client's pending request is unaffected and gets its own Ok afterwards. (The
+    corpus keeps the witness; the oracle class `reload-bad-path-crashes-main`
+    and `C09_code_has_repaired_shape` report the panic if it returns.) -/
+example :
+    let s := run (Hub.init true true true 10 1)
+      [.request 0 .worker, .request 1 (ClientVerb.reloadBad.classify true), .tick,
+       .response 0 ⟨0, 0, 0⟩ .ok, .tick]
+    s.run = .running ∧
+    s.log.filterMap (fun e => if e.isFinal then some (e.req, e.client, e.kind) else none)
+      = [(1, 1, .failure), (0, 0, .ok)] := by
   decide
 
 -- ============================================================ termination ==
@@ -394,10 +398,9 @@ example : ∃ e ∈ (run (Hub.init true true true 10 1) [.request 0 .worker, .re
     Stops compiling — a broken obligation — when a later change reverts one of
     the repairs. -/
 theorem C09_code_has_repaired_shape (T n : Nat) :
-    Hub.ofCode T n = Hub.init true true true T n ∧ Consts.hubAnswersUnsupportedVerbs = true := by
-  constructor
-  · rfl
-  · decide
+    Hub.ofCode T n = Hub.init true true true T n ∧ Consts.hubAnswersUnsupportedVerbs = true ∧
+      Consts.hubReloadBadPathPanics = false := by
+  refine ⟨rfl, ?_, ?_⟩ <;> decide
 
 -- ================================================= load_state request ids ==
 
